@@ -153,8 +153,11 @@ NeighFilter(L, M, lm) ==
              \/ Abs(b[4] - a[4]) * lm[2] <= t
              \/ Abs((b[2] + b[4]) - (a[2] + a[4])) * lm[2] <= 2 * t
 LineBoxes(tl) == [i \in 1..Len(tl) |-> tl[i].bb]
-Neighbors(tl, j, lm, pg, G) ==
-  SelectSeq(FindSeq(LineBoxes(tl), 1..Len(tl), NeighQuery(tl[j], lm), lm[2], pg, G),
+\* grid = TRUE: the answer comes in the order of Plane.find (grid cells, as coded); FALSE: in the order the lines were
+\* put into the plane (independent of the absolute 50 pt grid)
+Neighbors(tl, j, lm, pg, G, grid) ==
+  SelectSeq(IF grid THEN FindSeq(LineBoxes(tl), 1..Len(tl), NeighQuery(tl[j], lm), lm[2], pg, G)
+                    ELSE SeqOfSet(FindSet(LineBoxes(tl), 1..Len(tl), NeighQuery(tl[j], lm), lm[2], pg, G), LAMBDA a, b : a < b),
             LAMBDA m : NeighFilter(tl[j], tl[m], lm))
 \* the documented neighbour relation, without the spatial index
 DocNeighbor(L, M, lm) == OverlapsQ(M.bb, NeighQuery(L, lm), lm[2]) /\ NeighFilter(L, M, lm)
